@@ -152,13 +152,20 @@ func isLocalAddr(v ssa.Value) bool {
 			}
 			return false
 		case *ssa.Call:
-			// append(local, ...) stays local; constructor results are fresh
+			// append(local, ...) stays local; results of functions that return a fresh allocation are local
 			if calleeName(x) == "builtin:append" {
 				v = x.Call.Args[0]
 				continue
 			}
-			if _, isConst := x.Call.Args, false; isConst {
-				return false
+			if sc := x.Call.StaticCallee(); sc != nil && returnsFresh(sc, 0) {
+				return true
+			}
+			return false
+		case *ssa.Extract:
+			if c, ok := x.Tuple.(*ssa.Call); ok {
+				if sc := c.Call.StaticCallee(); sc != nil && returnsFresh(sc, x.Index) {
+					return true
+				}
 			}
 			return false
 		case *ssa.Const:
@@ -166,6 +173,79 @@ func isLocalAddr(v ssa.Value) bool {
 		default:
 			return false
 		}
+	}
+	return false
+}
+
+var freshMemo = map[*ssa.Function]map[int]int{} // 0 unknown(in progress) 1 yes 2 no
+
+// returnsFresh: result #idx of fn is, on every return, nil or memory allocated during the call (new/&T{}/make, or the
+// fresh result of another such function): a getter that deserialises into a new object, a constructor.
+func returnsFresh(fn *ssa.Function, idx int) bool {
+	if fn.Blocks == nil {
+		return false
+	}
+	if m, ok := freshMemo[fn]; ok {
+		if v, ok := m[idx]; ok {
+			return v == 1
+		}
+	} else {
+		freshMemo[fn] = map[int]int{}
+	}
+	freshMemo[fn][idx] = 2 // cycle guard: assume no
+	ok := true
+	n := 0
+	for _, ret := range returnsOf(fn) {
+		if idx >= len(ret.Results) {
+			ok = false
+			break
+		}
+		n++
+		if !freshValue(ret.Results[idx], 0) {
+			ok = false
+		}
+	}
+	if n == 0 {
+		ok = false
+	}
+	if ok {
+		freshMemo[fn][idx] = 1
+	}
+	return ok
+}
+
+func freshValue(v ssa.Value, d int) bool {
+	if d > 6 {
+		return false
+	}
+	switch x := v.(type) {
+	case *ssa.Const:
+		return true
+	case *ssa.Alloc:
+		return x.Heap || true
+	case *ssa.MakeMap, *ssa.MakeSlice:
+		return true
+	case *ssa.Phi:
+		for _, e := range x.Edges {
+			if e != ssa.Value(x) && !freshValue(e, d+1) {
+				return false
+			}
+		}
+		return true
+	case *ssa.Call:
+		if sc := x.Call.StaticCallee(); sc != nil {
+			return returnsFresh(sc, 0)
+		}
+	case *ssa.Extract:
+		if c, ok := x.Tuple.(*ssa.Call); ok {
+			if sc := c.Call.StaticCallee(); sc != nil {
+				return returnsFresh(sc, x.Index)
+			}
+		}
+	case *ssa.ChangeType:
+		return freshValue(x.X, d+1)
+	case *ssa.MakeInterface:
+		return freshValue(x.X, d+1)
 	}
 	return false
 }
